@@ -662,16 +662,22 @@ def check_matcher_axes(prog: Program, res: Result, rule: str = "C09-axes") -> No
                             role[t.id] = "row" if a.id == rows else "col"
                 elif isinstance(it, ast.Name) and it.id in (rows, cols) and isinstance(tg, ast.Name):
                     role[tg.id] = "row" if it.id == rows else "col"
+            role[rows], role[cols] = "row", "col"       # M[rows, cols] (fancy indexing with the two arrays themselves)
             for sub in walk_function(fi.node):
-                if isinstance(sub, ast.Subscript) and isinstance(sub.value, ast.Name) and sub.value.id == M and isinstance(sub.slice, ast.Tuple) and len(sub.slice.elts) == 2 \
-                        and all(isinstance(e, ast.Name) and e.id in role for e in sub.slice.elts):
+                pair = None
+                if isinstance(sub, ast.Subscript) and isinstance(sub.value, ast.Name) and sub.value.id == M and isinstance(sub.slice, ast.Tuple) and len(sub.slice.elts) == 2:
+                    pair = list(sub.slice.elts)
+                elif isinstance(sub, ast.Subscript) and isinstance(sub.value, ast.Subscript) and isinstance(sub.value.value, ast.Name) and sub.value.value.id == M \
+                        and not isinstance(sub.value.slice, (ast.Tuple, ast.Slice)) and not isinstance(sub.slice, (ast.Tuple, ast.Slice)):
+                    pair = [sub.value.slice, sub.slice]      # M[r][c]
+                if pair is not None and all(isinstance(e, ast.Name) and e.id in role for e in pair):
                     n += 1
                     res.touch(fi)
-                    got = [role[e.id] for e in sub.slice.elts]
+                    got = [role[e.id] for e in pair]
                     res.ob(rule, got == ["row", "col"], fi.qualname, f"`{short(sub, 30)}` is read at (matched row, matched column)",
                            f"`{short(sub, 40)}` indexes the matched matrix `{M}` as ({got[0]}, {got[1]}) of the matcher's result: it must be [{rows}-element, {cols}-element]; with a "
                            "different number of detections and tracks this raises IndexError (or reads another pair's cost)", f"{fi.module.relpath}:{sub.lineno}")
-    res.floor(rule, 1)
+    res.count(rule, 0)   # no floor: code that never reads the matrix back at the matched pairs has nothing to get wrong here
 
 
 def check(prog: Program, res: Result) -> None:
